@@ -358,4 +358,44 @@ theorem decode_spec (P : Nat) (d : Dec) (p : Pkt) (hi : Inv P d) (hp : p.payload
     have ha := addNALUs_spec d1 ns p.ts p.marker hfb1 hne hall
     exact ⟨⟨fragInv_of_fragPart P d1 _ ha.2.1 hn.1, ha.1⟩, ha.2.2⟩
 
+/-! ### `decodeNALUs` never touches the frame buffer (no hypotheses) -/
+
+theorem decodeNALUs0_fbPart (d : Dec) (p : Pkt) : fbPart (decodeNALUs0 d p).1 = fbPart d := by
+  unfold decodeNALUs0
+  split
+  · rfl
+  · dsimp only
+    split
+    · unfold decodeFUA
+      split
+      · rfl
+      · split
+        · unfold fuaStart; dsimp only; split <;> rfl
+        · unfold fuaCont; dsimp only
+          split
+          · split <;> rfl
+          · split
+            · rfl
+            · split
+              · rfl
+              · split <;> rfl
+    · split
+      · unfold decodeSTAPA; dsimp only
+        split
+        · rfl
+        · split <;> rfl
+      · split <;> rfl
+
+theorem decodeNALUs_fbPart (d : Dec) (p : Pkt) : fbPart (decodeNALUs d p).1 = fbPart d := by
+  have h0 := decodeNALUs0_fbPart d p
+  unfold decodeNALUs
+  split
+  · rename_i d1 ns heq
+    rw [heq] at h0
+    unfold finishNALUs
+    split
+    · exact h0
+    · split <;> exact h0
+  · exact h0
+
 end Rtsp.Codec.H264
